@@ -755,7 +755,60 @@ impl Gen<'_> {
     // Compositions that individual statement kinds rarely produce by chance.
     fn idiom(&mut self, out: &mut Vec<Stmt>) {
         let d = self.cfg.expr_depth;
-        match self.t.pick(16) {
+        match self.t.pick(18) {
+            16 | 17 => {
+                // The tagged-record idiom: a key of an object pattern that
+                // reads a name bound by an earlier item of the same pattern;
+                // in every binding position, with or without a rest, with
+                // or without an outer variable of the same name.
+                let kind = self.fresh("kind");
+                let payload = self.fresh("payload");
+                let meta = self.fresh("meta");
+                let tags = ["text", "code", "id"];
+                let tag = tags[self.t.pick(3)];
+                let msg = obj(vec![pair("kind", string(tag)), pair("text", string("hello")), pair("code", list(vec![int(1), int(2)])), pair("id", int(self.t.range(0, 9)))]);
+                let with_rest = self.t.chance(1, 2);
+                let mut props = vec![Prop::Pair(string("kind"), var(&kind)), Prop::Pair(if self.t.chance(1, 3) { bin(Op::Sum, var(&kind), string("")) } else { var(&kind) }, var(&payload))];
+                if with_rest {
+                    props.push(Prop::Single{e: var(&meta), spread: false, collect: true});
+                }
+                let pat = obj(props);
+                let mut show = vec![print(var(&kind)), print(var(&payload))];
+                if with_rest {
+                    show.push(print(var(&meta)));
+                }
+                let outer = self.t.chance(1, 2);
+                let mut body = vec![];
+                match self.t.pick(4) {
+                    0 => {
+                        body.push(declare(pat, msg));
+                        body.extend(show);
+                    },
+                    1 => {
+                        body.push(declare(var(&kind), string("id")));
+                        body.push(declare(var(&payload), null()));
+                        if with_rest {
+                            body.push(declare(var(&meta), null()));
+                        }
+                        body.push(assign(pat, msg));
+                        body.extend(show);
+                    },
+                    2 => body.push(for_(list(vec![var("_"), pat]), list(vec![msg.clone(), msg]), show)),
+                    _ => {
+                        let f = self.fresh("unpack");
+                        show.push(ret(var(&payload)));
+                        body.push(fn_decl(&f, vec![pat], false, show));
+                        body.push(print(call(var(&f), vec![msg])));
+                    },
+                }
+                if outer {
+                    // An outer variable of the same name whose value is a key
+                    // of the record too: a key resolved too early finds it.
+                    out.push(block(vec![declare(var(&kind), string("id")), block(body)]));
+                } else {
+                    out.push(block(body));
+                }
+            },
             14 | 15 => {
                 // A value that travels a route of 2..6 hops (stored in a
                 // container, spread, destructured, captured, passed, returned,
